@@ -1,5 +1,6 @@
 SPECIFICATION GenSpec
 CONSTANTS
+  Variant = "conn"
   MaxN = 3
   Modes = {"pdh", "uuid"}
   MaxHist = 20
